@@ -7,6 +7,7 @@ import (
 	"crypto/sha1"
 	"crypto/sha256"
 	"crypto/sha512"
+	"errors"
 	"fmt"
 	"hash"
 	"strings"
@@ -332,7 +333,7 @@ func (p *pair) generate(n int, addl []byte) string {
 		p.model = m2
 		c.Event("generate_ok", 1)
 		return "ok"
-	case err == drbg.ErrReseedRequired:
+	case errors.Is(err, drbg.ErrReseedRequired):
 		switch {
 		case exhausted:
 			untouched("reseed counter")
